@@ -1,6 +1,13 @@
 import SmtpV.Props.C15
+import SmtpV.Props.C15Calls
 #print axioms SmtpV.Props.C15.C15_mail_one_line
 #print axioms SmtpV.Props.C15.C15_rcpt_one_line
 #print axioms SmtpV.Props.C15.C15_hostile_address_refused
 #print axioms SmtpV.Props.C15.C15_no_ext_no_params
 #print axioms SmtpV.Props.C15.C15_unoffered_is_error
+#print axioms SmtpV.Props.C15.C15_mail_params_gated
+#print axioms SmtpV.Props.C15.C15_mail_default_gated
+#print axioms SmtpV.Props.C15.C15_rcpt_params_gated
+#print axioms SmtpV.Props.C15.C15_call_whole_lines
+#print axioms SmtpV.Props.C15.C15_one_line_per_call
+#print axioms SmtpV.Props.C15.C15_history_keeps_premises
